@@ -469,7 +469,7 @@ def _no_swallow(chk: Check) -> None:
                     return all(isinstance(s_, (ast.Assign, ast.AnnAssign, ast.Expr, ast.Return)) for s_ in stmts)
                 tolerated = (d is not None and d[-1] == "ValueError" and _only(t.body, True)
                              and any(_enum_call(x) for s_ in t.body for x in ast.walk(s_) if isinstance(x, ast.Call))
-                             and _only(h.body, False) and not t.orelse and not t.finalbody)
+                             and _only(h.body, False) and _only(t.orelse, False) and not t.finalbody)
                 chk.ob("R17.7", "%s:handler(%s)" % (f.qualname, d[-1] if d else "bare"),
                        reraises or tolerated, f.loc(h),
                        "decoder %s catches %s and carries on: a structural fault in the file would "
